@@ -350,7 +350,10 @@ def _all_singles(ctx, C):
                 ctx.count('positions', 'info:type-sequence-unavailable-sampled', len(ks))
             exhaustive = False
         for k in ks + ['end']:
-            for m in MODES:
+            modes = MODES
+            if ctx.quick() and not exhaustive and k not in (0, M - 1, 'end'):
+                modes = rng.sample(MODES, 2)    # quick tier, --enable=all workload: 2 of the 4 modes inside
+            for m in modes:
                 out.append([(f, k, m)])
         for k in sampled:
             out.append([(f, k, rng.choice(MODES))])
@@ -389,7 +392,7 @@ def _do_case(ctx, ci, kind, wdir=None):
             sets = []
         else:
             singles, exhaustive = _all_singles(ctx, C)
-            sets = _random_sets(ctx, C, ctx.n(8, 40))
+            sets = _random_sets(ctx, C, ctx.n(5, 40))
         n = _enumerate(ctx, C, 'mon', singles, sets)
         with ctx.lock:
             e = ctx.cov.setdefault('enumeration', {'exhaustive_single_faults': True, 'single_faults': 0,
@@ -449,11 +452,25 @@ def run(ctx):
     wdir = os.path.join(VERIF, 'known', 'C21', 'after-end-exit')
     if os.path.isdir(wdir):
         _do_case(ctx, 'w', 'witness', wdir)
-    n = ctx.n(3, 36)
-    for ci in range(n):
-        _do_case(ctx, ci, ('clean', 'dirty', 'info')[ci % 3])
+    import threading
+    asan_thread = None
     if os.environ.get('VERIF_C21_NO_ASAN') == '1':   # sensitivity experiments on a mutated tree (mon build only)
         ctx.assumptions.append('asan sample skipped (VERIF_C21_NO_ASAN=1)')
-        return
-    for ci in range(ctx.n(1, 6)):
-        _asan_sample(ctx, ci, ctx.n(4, 40))
+    else:
+        # the ASan sample is mostly waiting for slow process starts: overlap it with the mon enumeration
+        def asan_part():
+            try:
+                for ci in range(ctx.n(1, 6)):
+                    _asan_sample(ctx, ci, ctx.n(4, 40))
+            except Exception as e:     # never lose a harness error of the side thread
+                import traceback
+                traceback.print_exc()
+                ctx.inconclusive('asan sample failed with %r' % (e,))
+        asan_thread = threading.Thread(target=asan_part)
+        asan_thread.start()
+    n = ctx.n(3, 36)
+    try:
+        pmap(lambda ci: _do_case(ctx, ci, ('clean', 'dirty', 'info')[ci % 3]), range(n), workers=2)
+    finally:
+        if asan_thread:
+            asan_thread.join()
